@@ -22,6 +22,7 @@ def human_counters(out):
 def run(tier, seed):
     bytes_name_failures = 0
     stale_hidden_runs = 0
+    stale_links = 0
     res = vlib.Result(PID, tier, seed)
     pr = proof_phase(res, PID)
     okm, outm = vlib.build_model()
@@ -50,6 +51,19 @@ def run(tier, seed):
                 ew.mk(root + "/src", sspec)
                 ew.mk(root + "/dst", sorted(dspec, key=lambda e: (e["p"].count("/"), e["k"] != "d")))
                 os.makedirs(root + "/src", exist_ok=True); os.makedirs(root + "/dst", exist_ok=True)
+            if i % 4 == 1 and not faulted:
+                # stale symbolic links in the destination (seed C19-4): dangling, a loop, to a directory, to another stale entry -- with
+                # --delete each is an entry whose deletion must be reported exactly when it happened
+                stale_links += 1
+                stale_files = [e["p"] for e in dspec if e["k"] == "f" and e["p"] not in {x["p"] for x in sspec}]
+                links = [("zz_dangling", "nowhere/at/all"), ("zz_loop", "zz_loop"), ("zz_dir", ".")]
+                if stale_files:
+                    links.append(("zz_to_stale", stale_files[0]))
+                for root in (A, B):
+                    for name_, target_ in links:
+                        if not os.path.lexists(os.path.join(root, "dst", name_)) and name_ not in {x["p"] for x in sspec}:
+                            os.symlink(target_, os.path.join(root, "dst", name_))
+                            os.utime(os.path.join(root, "dst", name_), ns=(ew.T0NS + 7003 * 10**9,) * 2, follow_symlinks=False)
             if i % 5 == 4 and not fl.get("dry"):
                 # a valid resume state left by an interrupted earlier run (nothing recorded as completed), with the same or with
                 # other flags: whatever the engine has to say about it must not go to standard output
@@ -295,6 +309,7 @@ def run(tier, seed):
     res.cov["link_event_cases"] = 108
     res.cov["non_utf8_name_failure_runs"] = bytes_name_failures
     res.cov["stale_directory_with_unlisted_content_runs"] = stale_hidden_runs
+    res.cov["worlds_with_stale_symlinks_in_destination"] = stale_links
     res.cov["evaluations"] = len(cases) * 2 + 72
     res.cov["distinct_nontrivial"] = len(nontriv)
     res.cov["model_impl_disagreements"] = len(diffs)
